@@ -8,6 +8,9 @@ for d in seeded/C*-*/; do
   n=$(basename $d); id=${n%%-*}
   extra=""
   [ "$n" = "C14-2" ] && extra="C10"
+  [ "$n" = "C08-5" ] && extra="C16"
+  [ "$n" = "C09-4" ] && extra="C10"
+  [ "$n" = "C09-6" ] && extra="C10"
   for chk in $id $extra; do
     r=$(MUT_LINES=1 MUT_TIMEOUT=${MUT_TIMEOUT:-1500} tools/mutcheck.sh $n $chk quick 2>&1)
     rc=$(echo "$r" | grep -o "rc=[0-9]*" | head -1 | cut -d= -f2)
